@@ -20,6 +20,10 @@ demo_with=skipped; demo_without=skipped
 for f in $OUT/*_test.go; do
   [ -f "$f" ] || continue
   dpkg=$(grep -l "" $OUT/notes.md >/dev/null; grep -o "pkg/[a-z/]*/$(basename $f)" $OUT/notes.md | head -1 | xargs dirname 2>/dev/null)
+  if [ -z "$dpkg" ]; then
+    pn=$(grep -m1 "^package " $f | awk '{print $2}' | sed 's/_test$//')
+    dpkg=$(find pkg -type d -name "$pn" | head -1)
+  fi
   [ -z "$dpkg" ] && dpkg=$pkgdir
   cp $f $dpkg/
   (cd $WT && GOFLAGS= GOWORK= go test -vet=off -count=1 -run 'Demo|demo' ./$dpkg >/tmp/seedv-$S.with 2>&1) && demo_with=PASS || demo_with=FAIL
